@@ -68,11 +68,7 @@
  * Well-formedness of a packed entry for value v (symbol s, Huffman code c of n bits):
  *      entry == ((c | extra(v) << n) << 5) | (n + extra_bits(s))
  * ---------------------------------------------------------------------------------------------- */
-static inline uint32_t
-spec_pack_code(uint32_t huff_code, uint32_t huff_len, uint32_t extra_val, uint32_t extra_bits)
-{
-        return ((huff_code | (extra_val << huff_len)) << 5) | (huff_len + extra_bits);
-}
+/* spec_pack_code: contracts/spec_deflate_rfc.h */
 #define HD_SYM rfc_dist_sym(dist)
 #ifndef LONGER_HUFFTABLE
 #define HD_CODE ((uint32_t) hufftables->dcodes[HD_SYM - IGZIP_DECODE_OFFSET])
